@@ -371,7 +371,7 @@ def parts(ctx):
         elif not any('atheris' in a for a in ASSUMPTIONS):
             ASSUMPTIONS.append('atheris part skipped: %s is absent' % FUZZ_PY)
     from . import c01
-    ps.append(Part('inject', accepts_variants(c01.run_inject_for_c03), strategy=c01.injected(), n=ctx.n(6000, 60000),
+    ps.append(Part('inject', accepts_variants(c01.run_inject_for_c03), strategy=c01.injected(), n=ctx.n(12000, 60000),
                    budget_s=ctx.n(100, 1200), reduce=reduce_case))
     return ps
 
